@@ -643,6 +643,9 @@ class C12(PropertyCheck):
         "QipVerif.C12.continuous_channel_is_schedule",
         "QipVerif.C12.every_channel_points_are_schedule",
         "QipVerif.C12.repaired_concatenate_agrees",
+        "QipVerif.C12.schedule_unscheduled",
+        "QipVerif.C12.schedule_scheduled",
+        "QipVerif.C12.compile_channels",
         "QipVerif.C12.idle_only_counterexample",
         "QipVerif.C12.scale_counterexample",
         "QipVerif.C12.gap_counterexample",
